@@ -4,6 +4,10 @@ MCObjs == {"A", "B", "C"}
 MCIds == 1..3
 MCStale == IOEnv.PNC_STALE = "1"
 MCMax == atoi(IOEnv.PNC_MAXSTEPS)
+\* the state without its history: with this VIEW (NcHandles_All.cfg, no bound on the
+\* number of steps) TLC visits every reachable state of the three objects, i.e.
+\* the invariants hold for schedules of ANY length
+StateView == <<st, reach, fin, id, owner>>
 \* emit every maximal schedule (length = MaxSteps) once
 EmitConstraint ==
   /\ Bound
